@@ -14,7 +14,7 @@ can be replayed against the abstract table of `Spec/Manager.lean`:
   afterwards (dropped from the table, or half-removed) has a `close` event in the extension;
 * a module that is in the table with an open socket afterwards was there before with the same record (counters aside),
   is still listed under every type it was listed under, and is still in the logger set if it was;
-* nothing is added to a subscriber list or to the logger set.
+* nothing is added to a subscriber list, to the logger set or to the table; the dynamic-id cursor is untouched.
 
 No side condition (neither the index invariant nor fuel adequacy): a contract-based induction through the nested
 `forward`, like `Pres`.
@@ -35,6 +35,8 @@ structure Nest (s s' : State) : Prop where
   idxSub : ∀ t u, u ∈ idxGet s'.idx t → u ∈ idxGet s.idx t
   logKeep : ∀ u, u ∈ s.loggers → openIn s' u → u ∈ s'.loggers
   logSub : s'.loggers.Sublist s.loggers
+  uids : (s'.mods.map (·.uid)).Sublist (s.mods.map (·.uid))
+  ndyn : s'.nextDyn = s.nextDyn
 
 theorem core_closed {a b : Module} (h : a.core = b.core) : a.closed = b.closed := (core_fields h).1
 
@@ -45,10 +47,11 @@ theorem Nest.stay {s s' : State} (h : Nest s s') (u : Nat) (ho : openIn s' u) : 
 
 theorem Nest.refl (s : State) : Nest s s :=
   ⟨rfl, rfl, rfl, rfl, ⟨[], by simp, by simp, fun u h1 h2 => absurd h1 h2⟩, fun _ m h _ => ⟨m, h, rfl⟩,
-   fun _ _ h _ => h, fun _ _ h => h, fun _ h _ => h, List.Sublist.refl _⟩
+   fun _ _ h _ => h, fun _ _ h => h, fun _ h _ => h, List.Sublist.refl _, List.Sublist.refl _, rfl⟩
 
 theorem Nest.trans {a b c : State} (h1 : Nest a b) (h2 : Nest b c) : Nest a c := by
-  refine ⟨h2.buf.trans h1.buf, h2.wlist.trans h1.wlist, h2.fail.trans h1.fail, h2.nuid.trans h1.nuid, ?_, ?_, ?_, ?_, ?_, ?_⟩
+  refine ⟨h2.buf.trans h1.buf, h2.wlist.trans h1.wlist, h2.fail.trans h1.fail, h2.nuid.trans h1.nuid, ?_, ?_, ?_, ?_, ?_, ?_,
+    h2.uids.trans h1.uids, h2.ndyn.trans h1.ndyn⟩
   · obtain ⟨e1, o1, r1, c1⟩ := h1.ext
     obtain ⟨e2, o2, r2, c2⟩ := h2.ext
     refine ⟨e1 ++ e2, by rw [o2, o1, List.append_assoc], fun u hu => ?_, fun u ha hc => ?_⟩
@@ -72,26 +75,27 @@ theorem Nest.trans {a b c : State} (h1 : Nest a b) (h2 : Nest b c) : Nest a c :=
 /-- same tables, log extended by events that are not `rd` markers -/
 theorem nest_same {s s' : State} (hm : s'.mods = s.mods) (hi : s'.idx = s.idx) (hl : s'.loggers = s.loggers)
     (hb : s'.buf = s.buf) (hw : s'.wlist = s.wlist) (hf : s'.fail = s.fail) (hn : s'.nextUid = s.nextUid)
+    (hd : s'.nextDyn = s.nextDyn)
     (ho : ∃ ext, s'.out = s.out ++ ext ∧ ∀ u, Ev.rd u ∉ ext) : Nest s s' := by
   have hfind : ∀ u, s'.find u = s.find u := fun u => by unfold State.find; rw [hm]
   obtain ⟨ext, he, hr⟩ := ho
   refine ⟨hb, hw, hf, hn, ⟨ext, he, hr, fun u h1 h2 => ?_⟩, fun u m' h _ => ⟨m', by rw [← hfind]; exact h, rfl⟩,
     fun _ _ h _ => by rw [hi]; exact h, fun _ _ h => by rw [← hi]; exact h, fun _ h _ => by rw [hl]; exact h,
-    by rw [hl]; exact List.Sublist.refl _⟩
+    by rw [hl]; exact List.Sublist.refl _, by rw [hm]; exact List.Sublist.refl _, hd⟩
   exact absurd (by obtain ⟨m, hm', hc⟩ := h1; exact ⟨m, by rw [hfind]; exact hm', hc⟩) h2
 
 theorem nest_emit (s : State) (e : Ev) (he : ∀ u, e ≠ .rd u) : Nest s (s.emit e) :=
-  nest_same rfl rfl rfl rfl rfl rfl rfl ⟨[e], rfl, fun u hu => by simp at hu; exact he u hu.symm⟩
+  nest_same rfl rfl rfl rfl rfl rfl rfl rfl ⟨[e], rfl, fun u hu => by simp at hu; exact he u hu.symm⟩
 
 theorem nest_crash (s : State) (w : String) : Nest s (s.crash w) := by
   unfold State.crash; split
   · exact Nest.refl s
-  · exact nest_same rfl rfl rfl rfl rfl rfl rfl ⟨[], by simp, by simp⟩
+  · exact nest_same rfl rfl rfl rfl rfl rfl rfl rfl ⟨[], by simp, by simp⟩
 
 theorem nest_count (cfg : Cfg) (s : State) (t : Int) : Nest s (countMsg cfg s t) := by
   unfold countMsg; split
   · exact Nest.refl s
-  · exact nest_same rfl rfl rfl rfl rfl rfl rfl ⟨[], by simp, by simp⟩
+  · exact nest_same rfl rfl rfl rfl rfl rfl rfl rfl ⟨[], by simp, by simp⟩
 
 /-- an update that leaves everything but the two counters alone -/
 theorem nest_upd_core (s : State) (u : Nat) (f : Module → Module) (hu : ∀ m, (f m).uid = m.uid)
@@ -105,7 +109,8 @@ theorem nest_upd_core (s : State) (u : Nat) (f : Module → Module) (hu : ∀ m,
     · rw [core_closed (hc m)]; exact hcl
     · exact hcl
   refine ⟨rfl, rfl, rfl, rfl, ⟨[], by simp [State.upd], by simp, fun v h1 h2 => absurd (hopen v h1) h2⟩, ?_,
-    fun _ _ h _ => h, fun _ _ h => h, fun _ h _ => h, List.Sublist.refl _⟩
+    fun _ _ h _ => h, fun _ _ h => h, fun _ h _ => h, List.Sublist.refl _,
+    by rw [uids_upd s u f hu]; exact List.Sublist.refl _, rfl⟩
   intro v m' hm' _
   rw [hfind] at hm'
   cases h0 : s.find v with
@@ -164,7 +169,7 @@ theorem removePrep_nest (s : State) (u : Nat) (m : Module) (hm : s.find u = some
       simp only [Option.map_some, Option.some.injEq]
       have : (x.uid == u) = false := by simp [this, hv]
       simp [this]
-  refine ⟨h1, h2, h3, h4, ⟨_, removePrep_out s u m, ?_, ?_⟩, ?_, ?_, ?_, ?_, ?_⟩
+  refine ⟨h1, h2, h3, h4, ⟨_, removePrep_out s u m, ?_, ?_⟩, ?_, ?_, ?_, ?_, ?_, ?_, ?_⟩
   · intro v hv; split at hv <;> simp at hv
   · intro v ⟨x, hx, hc⟩ hno
     by_cases hv : v = u
@@ -186,6 +191,10 @@ theorem removePrep_nest (s : State) (u : Nat) (m : Module) (hm : s.find u = some
     have hvu : v ≠ u := fun e => removePrep_notOpen s u m (e ▸ ho)
     rw [removePrep_loggers]; exact List.mem_filter.mpr ⟨hv, by simpa using hvu⟩
   · rw [removePrep_loggers]; exact List.filter_sublist
+  · have : (removePrep s u m).mods.map (·.uid) = s.mods.map (·.uid) := by
+      unfold removePrep; dsimp only; split <;> exact uids_upd _ u _ (fun _ => rfl)
+    rw [this]; exact List.Sublist.refl _
+  · unfold removePrep; dsimp only; split <;> rfl
 
 /-- dropping the table entry of a module whose socket is already closed -/
 theorem nest_dropMod (s : State) (u : Nat) (hno : ¬ openIn s u) :
@@ -194,7 +203,7 @@ theorem nest_dropMod (s : State) (u : Nat) (hno : ¬ openIn s u) :
     fun v hv => find_filter_ne _ _ _ hv
   have hself : ({ s with mods := s.mods.filter (·.uid != u) } : State).find u = none := find_filter_eq _ _
   refine ⟨rfl, rfl, rfl, rfl, ⟨[], by simp, by simp, ?_⟩, ?_, fun _ _ h _ => h, fun _ _ h => h, fun _ h _ => h,
-    List.Sublist.refl _⟩
+    List.Sublist.refl _, List.Sublist.map _ List.filter_sublist, rfl⟩
   · intro v ⟨x, hx, hc⟩ hn
     by_cases hv : v = u
     · subst hv; exact absurd ⟨x, hx, hc⟩ hno
@@ -348,8 +357,8 @@ theorem infoAll_nest (cfg : Cfg) : ∀ (ms : List Module) (s : State), Nest s (i
 /-- a change of the statistics / timer fields only -/
 theorem nest_stats {s s' : State} (hm : s'.mods = s.mods) (hi : s'.idx = s.idx) (hl : s'.loggers = s.loggers)
     (hb : s'.buf = s.buf) (hw : s'.wlist = s.wlist) (hf : s'.fail = s.fail) (hn : s'.nextUid = s.nextUid)
-    (ho : s'.out = s.out) : Nest s s' :=
-  nest_same hm hi hl hb hw hf hn ⟨[], by simp [ho], by simp⟩
+    (ho : s'.out = s.out) (hd : s'.nextDyn = s.nextDyn := by rfl) : Nest s s' :=
+  nest_same hm hi hl hb hw hf hn hd ⟨[], by simp [ho], by simp⟩
 
 theorem sendTiming_nest (cfg : Cfg) (s : State) : Nest s (sendTiming cfg s) := by
   unfold sendTiming
@@ -388,6 +397,74 @@ theorem ticks_nest (cfg : Cfg) (s : State) : Nest s (ticks cfg s) := by
 
 /-! ## the simulation relation -/
 
+/-- the name of the manager's own table entry -/
+def mmName : List Nat := "message_manager".toList.map (·.toNat)
+
+/-- facts about the model's tables alone that the connect decision (C06) rests on, for the connections satisfying `P`:
+    table entries have distinct uids; the manager's own entry keeps id 0 and its name; a module that is not connected
+    holds no id; the dynamic-id cursor stays inside its range -/
+structure MInvOn (P : Nat → Prop) (cfg : Cfg) (s : State) : Prop where
+  distinct : (s.mods.map (·.uid)).Nodup
+  mgr : ∀ m0, s.find 0 = some m0 → m0.modId = 0 ∧ m0.name = mmName
+  unconn : ∀ u m, P u → s.find u = some m → m.connected = false → m.modId = 0
+  ndyn : maxDyn cfg = 0 ∨ s.nextDyn < maxDyn cfg
+
+theorem MInvOn.mono {P Q : Nat → Prop} {cfg : Cfg} {s : State} (h : MInvOn P cfg s) (hq : ∀ u, Q u → P u) : MInvOn Q cfg s :=
+  ⟨h.distinct, h.mgr, fun u m hu => h.unconn u m (hq u hu), h.ndyn⟩
+
+theorem core_more {a b : Module} (h : a.core = b.core) :
+    a.modId = b.modId ∧ a.name = b.name ∧ a.connected = b.connected := by
+  unfold Module.core at h; cases a; cases b; simp_all
+
+/-- nested activity keeps them -/
+theorem minv_nest {P : Nat → Prop} {cfg : Cfg} {s s' : State} (h : MInvOn P cfg s) (n : Nest s s') (ao' : AllOpen s') :
+    MInvOn P cfg s' := by
+  refine ⟨n.uids.nodup h.distinct, fun m0 hm0 => ?_, fun u m' hp hm' hc => ?_, by rw [n.ndyn]; exact h.ndyn⟩
+  · obtain ⟨m, hm, e⟩ := n.surv 0 m0 hm0 (ao' 0 m0 hm0)
+    obtain ⟨e1, e2, _⟩ := core_more e
+    rw [e1, e2]; exact h.mgr m hm
+  · obtain ⟨m, hm, e⟩ := n.surv u m' hm' (ao' u m' hm')
+    obtain ⟨e1, _, e3⟩ := core_more e
+    rw [e1]; exact h.unconn u m hp hm (by rw [← e3]; exact hc)
+
+/-- a step that keeps the table and the cursor -/
+theorem minv_same {P : Nat → Prop} {cfg : Cfg} {s s' : State} (h : MInvOn P cfg s) (hm : s'.mods = s.mods)
+    (hd : s'.nextDyn = s.nextDyn) : MInvOn P cfg s' := by
+  have hfind : ∀ u, s'.find u = s.find u := fun u => by unfold State.find; rw [hm]
+  exact ⟨by rw [hm]; exact h.distinct, fun m0 h0 => h.mgr m0 (by rw [← hfind]; exact h0),
+    fun u m hp hu => h.unconn u m hp (by rw [← hfind]; exact hu), by rw [hd]; exact h.ndyn⟩
+
+/-- a rewrite of fields of the table entry of `u ≠ 0`, described through `find` -/
+theorem minv_find {P : Nat → Prop} {cfg : Cfg} {s s' : State} {u : Nat} {fm : Module → Module} (h : MInvOn P cfg s)
+    (hu0 : u ≠ 0) (huids : s'.mods.map (·.uid) = s.mods.map (·.uid))
+    (hfind : ∀ v, s'.find v = (s.find v).map (fun m => if m.uid == u then fm m else m))
+    (hd : s'.nextDyn = s.nextDyn) :
+    MInvOn (fun v => P v ∧ v ≠ u) cfg s' := by
+  refine ⟨by rw [huids]; exact h.distinct, fun m0 hm0 => ?_, fun v m' hp hm' hc => ?_, by rw [hd]; exact h.ndyn⟩
+  · rw [hfind] at hm0
+    cases h0 : s.find 0 with
+    | none => simp [h0] at hm0
+    | some x =>
+      have hx : (x.uid == u) = false := by rw [find_uid h0]; simpa using fun e => hu0 e.symm
+      simp only [h0, Option.map_some, hx, Bool.false_eq_true, if_false, Option.some.injEq] at hm0
+      subst hm0; exact h.mgr x h0
+  · rw [hfind] at hm'
+    cases h0 : s.find v with
+    | none => simp [h0] at hm'
+    | some x =>
+      have hx : (x.uid == u) = false := by rw [find_uid h0]; simpa using hp.2
+      simp only [h0, Option.map_some, hx, Bool.false_eq_true, if_false, Option.some.injEq] at hm'
+      subst hm'; exact h.unconn v x hp.1 h0 hc
+
+/-- the requester's own entry satisfies the clause again (or is gone) -/
+theorem minv_close {P : Nat → Prop} {cfg : Cfg} {s : State} {u : Nat} (h : MInvOn (fun v => P v ∧ v ≠ u) cfg s)
+    (hu : ∀ m, s.find u = some m → m.connected = false → m.modId = 0) : MInvOn P cfg s :=
+  ⟨h.distinct, h.mgr, fun v m hp hm hc => by
+    by_cases hv : v = u
+    · subst hv; exact hu m hm hc
+    · exact h.unconn v m ⟨hp, hv⟩ hm hc, h.ndyn⟩
+
+
 open Spec in
 /-- one live entry of the abstract table against the module record the manager keeps for the same connection -/
 structure SimMod (cfg : Cfg) (am : AMod) (m : Module) : Prop where
@@ -424,6 +501,7 @@ structure Sim (cfg : Cfg) (a : Spec.A) (s : State) : Prop where
   logBound : ∀ u, u ∈ s.loggers → u ≤ s.nextUid
   idxIn : ∀ u m t, s.find u = some m → t ∈ m.subs → u ∈ idxGet s.idx t
   idxPos : ∀ t u, u ∈ idxGet s.idx t → u ≠ 0
+  minv : MInvOn (fun _ => True) cfg s
 
 theorem mem_closes (evs : List Ev) (u : Nat) : u ∈ Spec.closes evs ↔ Ev.close u ∈ evs := by
   unfold Spec.closes
@@ -488,7 +566,7 @@ theorem sim_quiet {cfg : Cfg} {a : Spec.A} {s s' : State} (hs : Sim cfg a s) (ao
   have live' : ∀ u, (Spec.applyDepartures a ext').live u = if (Spec.closes ext').contains u then none else a.live u :=
     Spec.applyDepartures_live a ext'
   refine ⟨by rw [Spec.applyDepartures_uids, hna]; exact hs.uids, by rw [hna, n.nuid]; exact hs.nacc,
-    by rw [hfl, n.fail]; exact hs.fail, by rw [hb, n.buf]; exact hs.buf, ?_, ?_, ?_, ?_, ?_, ?_, ?_, ?_, ?_, ?_⟩
+    by rw [hfl, n.fail]; exact hs.fail, by rw [hb, n.buf]; exact hs.buf, ?_, ?_, ?_, ?_, ?_, ?_, ?_, ?_, ?_, ?_, minv_nest hs.minv n ao'⟩
   · intro u hu
     rw [live']
     by_cases hc : (Spec.closes ext').contains u = true
@@ -560,16 +638,17 @@ structure SimOn (P : Nat → Prop) (cfg : Cfg) (a : Spec.A) (s : State) : Prop w
   logBound : ∀ u, u ∈ s.loggers → u ≤ s.nextUid
   idxIn : ∀ u m t, P u → s.find u = some m → t ∈ m.subs → u ∈ idxGet s.idx t
   idxPos : ∀ t u, u ∈ idxGet s.idx t → u ≠ 0
+  minv : MInvOn P cfg s
 
 theorem Sim.on {cfg : Cfg} {a : Spec.A} {s : State} (h : Sim cfg a s) (P : Nat → Prop) : SimOn P cfg a s :=
   ⟨h.uids, h.nacc, h.fail, h.buf, fun u _ => h.live u, fun u am m _ => h.mods u am m, fun u _ => h.w u,
    fun u m _ => h.logIn u m, fun u m _ => h.logOut u m, fun u m _ => h.logConn u m, h.logNodup, h.logBound,
-   fun u m t _ => h.idxIn u m t, h.idxPos⟩
+   fun u m t _ => h.idxIn u m t, h.idxPos, h.minv.mono (fun _ _ => trivial)⟩
 
 theorem SimOn.all {cfg : Cfg} {a : Spec.A} {s : State} (h : SimOn (fun _ => True) cfg a s) : Sim cfg a s :=
   ⟨h.uids, h.nacc, h.fail, h.buf, fun u => h.live u trivial, fun u am m => h.mods u am m trivial, fun u => h.w u trivial,
    fun u m => h.logIn u m trivial, fun u m => h.logOut u m trivial, fun u m => h.logConn u m trivial, h.logNodup, h.logBound,
-   fun u m t => h.idxIn u m t trivial, h.idxPos⟩
+   fun u m t => h.idxIn u m t trivial, h.idxPos, h.minv⟩
 
 /-- `sim_quiet` on a set of connections -/
 theorem simOn_quiet {P : Nat → Prop} {cfg : Cfg} {a : Spec.A} {s s' : State} (hs : SimOn P cfg a s) (ao : AllOpen s)
@@ -583,7 +662,7 @@ theorem simOn_quiet {P : Nat → Prop} {cfg : Cfg} {a : Spec.A} {s s' : State} (
   have live' : ∀ u, (Spec.applyDepartures a ext').live u = if (Spec.closes ext').contains u then none else a.live u :=
     Spec.applyDepartures_live a ext'
   refine ⟨by rw [Spec.applyDepartures_uids, hna]; exact hs.uids, by rw [hna, n.nuid]; exact hs.nacc,
-    by rw [hfl, n.fail]; exact hs.fail, by rw [hb, n.buf]; exact hs.buf, ?_, ?_, ?_, ?_, ?_, ?_, ?_, ?_, ?_, ?_⟩
+    by rw [hfl, n.fail]; exact hs.fail, by rw [hb, n.buf]; exact hs.buf, ?_, ?_, ?_, ?_, ?_, ?_, ?_, ?_, ?_, ?_, minv_nest hs.minv n ao'⟩
   · intro u hp hu
     rw [live']
     by_cases hc : (Spec.closes ext').contains u = true
@@ -633,17 +712,18 @@ theorem simOn_quiet {P : Nat → Prop} {cfg : Cfg} {a : Spec.A} {s s' : State} (
     exact n.idxKeep t u (hs.idxIn u m t hp hm (by rw [← core_subs e]; exact ht)) ⟨m', hm', ao' u m' hm'⟩
   · intro t u hu; exact hs.idxPos t u (n.idxSub t u hu)
 
-/-- the event part of `Nest`: also satisfied by steps that rewrite fields of a table entry without opening or closing
-    anything -/
+/-- the event part of `Nest` (and "the table only shrinks"): also satisfied by steps that rewrite fields of a table entry
+    without opening or closing anything -/
 def Evt (s s' : State) : Prop :=
-  ∃ ext, s'.out = s.out ++ ext ∧ (∀ u, Ev.rd u ∉ ext) ∧ (∀ u, openIn s u → ¬ openIn s' u → Ev.close u ∈ ext)
+  (∃ ext, s'.out = s.out ++ ext ∧ (∀ u, Ev.rd u ∉ ext) ∧ (∀ u, openIn s u → ¬ openIn s' u → Ev.close u ∈ ext)) ∧
+  (s'.mods.map (·.uid)).Sublist (s.mods.map (·.uid))
 
-theorem Nest.evt {s s' : State} (h : Nest s s') : Evt s s' := h.ext
+theorem Nest.evt {s s' : State} (h : Nest s s') : Evt s s' := ⟨h.ext, h.uids⟩
 
 theorem Evt.trans {a b c : State} (h1 : Evt a b) (h2 : Evt b c) : Evt a c := by
-  obtain ⟨e1, o1, r1, c1⟩ := h1
-  obtain ⟨e2, o2, r2, c2⟩ := h2
-  refine ⟨e1 ++ e2, by rw [o2, o1, List.append_assoc], fun u hu => ?_, fun u ha hc => ?_⟩
+  obtain ⟨⟨e1, o1, r1, c1⟩, u1⟩ := h1
+  obtain ⟨⟨e2, o2, r2, c2⟩, u2⟩ := h2
+  refine ⟨⟨e1 ++ e2, by rw [o2, o1, List.append_assoc], fun u hu => ?_, fun u ha hc => ?_⟩, u2.trans u1⟩
   · rcases List.mem_append.mp hu with h | h
     · exact r1 u h
     · exact r2 u h
@@ -651,8 +731,9 @@ theorem Evt.trans {a b c : State} (h1 : Evt a b) (h2 : Evt b c) : Evt a c := by
     · exact List.mem_append.mpr (Or.inr (c2 u hb hc))
     · exact List.mem_append.mpr (Or.inl (c1 u ha hb))
 
-/-- a step that keeps the log and the set of open connections -/
-theorem evt_same {s s' : State} (ho : s'.out = s.out) (hop : ∀ u, openIn s u → openIn s' u) : Evt s s' :=
-  ⟨[], by simp [ho], by simp, fun u h1 h2 => absurd (hop u h1) h2⟩
+/-- a step that keeps the log, the uids of the table and the set of open connections -/
+theorem evt_same {s s' : State} (ho : s'.out = s.out) (hop : ∀ u, openIn s u → openIn s' u)
+    (hu : s'.mods.map (·.uid) = s.mods.map (·.uid) := by rfl) : Evt s s' :=
+  ⟨⟨[], by simp [ho], by simp, fun u h1 h2 => absurd (hop u h1) h2⟩, by rw [hu]; exact List.Sublist.refl _⟩
 
 end Pyrtma.Mgr
